@@ -25,7 +25,7 @@ REG = Registry(
     ],
 )
 
-KINDS = ["kmeans", "gmm", "isv", "jfa", "wccn", "jfa_bag", "isv_bag"]
+KINDS = ["kmeans", "gmm", "isv", "jfa", "wccn", "jfa_bag", "isv_bag", "isv_late_ubm", "jfa_late_ubm"]
 
 
 def triple(draw):
@@ -56,6 +56,10 @@ def triple(draw):
                 for _ in range(n)]
         t.update(ubm=p, rU=c["U"].shape[1], rV=(c["V"].shape[1] if c["V"] is not None else 1), sessions=sess, y=y,
                  em=gen.integer(draw, 1, 2), npart=gen.integer(draw, 1, n))
+        if kind.endswith("_late_ubm"):
+            # the machine gets no trained UBM at construction (ubm=None + ubm_kwargs): U/V/D are created at fit time
+            # (a 2-D array: one row per labelled item; the UBM is trained on the rows)
+            t["frames"] = np.stack([gen.data_from(draw, p, 1, kind="bulk", r=r)[0][0] for _ in range(n)])
     return t
 
 
@@ -100,6 +104,16 @@ def fit_triple(t, reuse=None, other=None):
             reuse["obj"] = w
         return {"weights": np.asarray(w.weights, float)}
     ubm = sut.make_gmm(t["ubm"])
+    if kind.endswith("_late_ubm"):
+        kw = dict(ubm=None, ubm_kwargs=dict(n_gaussians=int(t["ubm"]["C"]), ubm=ubm, max_fitting_steps=2,
+                                            convergence_threshold=None),
+                  random_state=int(t["seed"]), em_iterations=int(t["em"]))
+        m = JFAMachine(r_U=int(t["rU"]), r_V=int(t["rV"]), **kw) if kind.startswith("jfa") else ISVMachine(r_U=int(t["rU"]), **kw)
+        m.fit_using_array(np.asarray(t["frames"]), np.asarray(t["y"]))
+        out = {"U": np.asarray(m.U, float), "D": np.asarray(m.D, float)}
+        if kind.startswith("jfa"):
+            out["V"] = np.asarray(m.V, float)
+        return out
     stats = [sut.make_stats(s) for s in t["sessions"]]
     if kind.startswith("jfa"):
         m = JFAMachine(r_U=int(t["rU"]), r_V=int(t["rV"]), ubm=ubm, random_state=int(t["seed"]), em_iterations=int(t["em"]))
